@@ -15,6 +15,7 @@ mod evidence;
 mod oracle;
 mod prog;
 mod props;
+mod selftest;
 #[path = "../../conform/src/storescen.rs"]
 mod storescen;
 
@@ -130,6 +131,7 @@ fn main() {
     match args.cmd.as_str() {
         "check" => std::process::exit(check(&args)),
         "replay" => std::process::exit(replay(&args.target)),
+        "selftest" => std::process::exit(selftest::run()),
         "conform-model" => std::process::exit(conform_model::run(&args.target, args.bound.unwrap_or(1))),
         "list" => {
             for s in props::scenarios(&args.target, args.tier) {
